@@ -95,6 +95,8 @@ structure Represents (ts : List Task) (sel : List Tok) (nm : Run.Name → Tok) (
   setupE : ∀ n d, Run.MayRun inp n → d ∈ inp.setup n → nm d ∈ succs ts (nm n)
   resE : ∀ c d, (d ∈ (inp.calcRes c).tasks ∨ d ∈ (inp.calcRes c).files ∨ d ∈ (inp.calcRes c).calcs) →
     nm d ∈ succs ts (nm c)
+  resFE : ∀ c d, (d ∈ (inp.calcResFail c).tasks ∨ d ∈ (inp.calcResFail c).files ∨ d ∈ (inp.calcResFail c).calcs) →
+    nm d ∈ succs ts (nm c)         -- also what a calc task returned before its execution failed (M1 `deliverF`)
 
 theorem reach_mono (ts : List Task) (A B : List Tok) (h : ∀ x ∈ A, x ∈ B) (m : Tok) (hm : Reach ts A m) :
     Reach ts B m := by
@@ -111,6 +113,7 @@ theorem cl_reach {ts : List Task} {sel : List Tok} {nm : Run.Name → Tok} {inp 
   | ofCalc _ hd ih => exact .step _ _ ih (h.calcE _ _ hd)
   | ofSetup _ hm hd ih => exact .step _ _ ih (h.setupE _ _ hm hd)
   | ofRes _ hd ih => exact .step _ _ ih (h.resE _ _ hd)
+  | ofResFail _ hd ih => exact .step _ _ ih (h.resFE _ _ hd)
 
 /-- the order clause for every reachable state of a serial run, in terms of `Reach` -/
 theorem order_reach {ts : List Task} {sel : List Tok} {nm : Run.Name → Tok} {inp : Run.RunInput} {s : Run.Sys}
